@@ -126,7 +126,8 @@ def run(ctx):
             if len(loads) != 2:
                 bad = bad or "comparator shape"
             else:
-                for a, b in ((1, 2), (2, 1), (5, 5), (2 ** 63 + 8, 16), (16, 2 ** 63 + 8), (2 ** 64 - 8, 2 ** 63)):
+                for a, b in ((1, 2), (2, 1), (5, 5), (2 ** 63 + 8, 16), (16, 2 ** 63 + 8), (2 ** 64 - 8, 2 ** 63),
+                             (0x90000010, 0x10), (0x10, 0x90000010), (0x100000010, 0x10), (0x10, 0x100000010), (0x7f0000000000, 0x550000000000)):
                     at = atom_from([(lambda n, x=loads[0]: n is x, a), (lambda n, x=loads[1]: n is x, b)])
                     v = summary_value(cf, at)
                     want = 0 if a == b else (-1 if a < b else 1)
